@@ -669,7 +669,7 @@ def rule_views_session_independent(ctx):
                 txt = " ".join((p.value.text() if isinstance(p.value, Str) else str(p.value.v)).split())
                 seg = txt[txt.find(name.split(".")[-1]):]
                 seg = seg[:seg.find(";")] if ";" in seg else seg
-                ok = bool(re.search(r"database_name\s*={1,2}\s*'\{CAT\}'", seg))
+                ok = bool(re.search(r"database_name\s*(={1,2}|\bin\s*\()\s*'\{CAT\}'", seg, re.I))
                 ctx.ob("C09.k", f"view {name}: rows of {wide[0]} are restricted to the view's own database", ok, m.loc(fn))
                 if not ok:
                     ctx.violation("C09.k", "info_schema", "creation_sql", f"view {name.split('.')[-1]}: {wide[0]} not filtered by its own database", m.loc(fn),
